@@ -224,6 +224,113 @@ def run(chk: lib.Check):
                     base = guard(model, base, f"rendering diagram {d.name!r} of a model whose .aird lost {k} layoutConstraint/bendpoints elements",
                                  f"render-writes:damaged-layout:{d.name}", {"model": spec0["name"], "diagram": d.uuid, "name": d.name, "round": rnd, "removed": k})
                 del model
+    # ---------------- models in which attributes are present but EMPTY (name="", workspacePath=""): code that sets a value for the time of an
+    # operation and restores it afterwards has to restore "present and empty", not "absent"
+    for spec0 in specs[:1]:
+        for rnd in range(1 if quick else 4):
+            with lib.scratch("c11e-") as tmp:
+                src = pathlib.Path(spec0["path"]).parent
+                shutil.copytree(src, tmp / "m", ignore=shutil.ignore_patterns("*.license"))
+                aird = tmp / "m" / pathlib.Path(spec0["path"]).name
+                touched = 0
+                for f in sorted((tmp / "m").iterdir()):
+                    if f.suffix not in (".capella", ".aird", ".capellafragment", ".airdfragment"):
+                        continue
+                    tree = etree.parse(str(f), etree.XMLParser(remove_blank_text=False, huge_tree=True))
+                    for e in tree.getroot().iter():
+                        if not isinstance(e.tag, str):
+                            continue
+                        if f.suffix.startswith(".capella") and e.get("id") and e.get("name") is None and e.getparent() is not None and rng.random() < 0.7:
+                            e.set("name", "")
+                            touched += 1
+                        elif f.suffix.startswith(".aird") and e.tag in ("ownedStyle", "styles") and e.get("workspacePath") is None and rng.random() < 0.5:
+                            e.set("workspacePath", "")
+                            touched += 1
+                    f.write_bytes(etree.tostring(tree, xml_declaration=True, encoding="UTF-8"))
+                try:
+                    kw = {a: b for a, b in spec0.items() if a not in ("name", "path")}
+                    model = capellambse.MelodyModel(str(aird), **kw)
+                except Exception as ex:  # noqa: BLE001
+                    stats[f"empty-attrs-load-raises:{type(ex).__name__}"] += 1
+                    continue
+                base = fingerprint(model)
+                stats["empty-attributes-added"] += touched
+                for d in model.diagrams:
+                    for fmt in (None, "svg"):
+                        try:
+                            d.render(fmt)
+                            stats["empty-attrs-render-ok"] += 1
+                        except Exception as ex:  # noqa: BLE001
+                            stats[f"empty-attrs-render-raises:{type(ex).__name__}"] += 1
+                    chk.note_case((spec0["name"], "empty-attrs", rnd, d.uuid))
+                    base = guard(model, base, f"rendering diagram {d.name!r} of a model in which {touched} elements carry an explicit empty name/workspacePath",
+                                 f"render-writes:empty-attributes:{d.name}", {"model": spec0["name"], "diagram": d.uuid, "name": d.name, "round": rnd})
+                for o_ in list(model.search())[: (300 if quick else 3000)]:
+                    try:
+                        repr(o_); o_._repr_html_(); o_._short_html_()
+                    except Exception as ex:  # noqa: BLE001
+                        chk.violation(f"html-raises:empty-attributes:{type(o_).__name__}:{type(ex).__name__}", f"repr/HTML of {type(o_).__name__} {o_.uuid} with empty attributes raised {ex!r}",
+                                      {"model": spec0["name"], "uuid": o_.uuid})
+                base = guard(model, base, "introspection in the model with empty attributes", "reads-write:empty-attributes", {"model": spec0["name"]})
+                del model
+    # ---------------- objects in half-built states: a bare new object of every class a containment relation can create (no ends, no type,
+    # no source/target yet) still has a dir(), repr() and HTML representation
+    for spec0 in specs[:1]:
+        model = corpus.load(spec0)
+        import histories
+        done_rel: set = set()
+        for o in histories._objects(model, rng, 4000):
+            for name, acc in graph.list_relations(o):
+                kind = graph.acc_kind(acc)
+                if kind not in ("direct", "role") or (type(o).__name__, name) in done_rel or getattr(acc, "rootelem", None):
+                    continue
+                done_rel.add((type(o).__name__, name))
+                hints = sorted(getattr(acc, "xtypes", []) or []) or [None]
+                for hint in hints[: (3 if quick else 20)]:
+                    try:
+                        lst = getattr(o, name)
+                        new = lst.create(hint) if hint else lst.create()
+                    except Exception:  # noqa: BLE001  creation may legitimately need more arguments
+                        stats["bare-create-refused"] += 1
+                        continue
+                    stats["bare-created"] += 1
+                    cls = type(new).__name__
+                    chk.note_case((spec0["name"], "bare", cls), nontrivial=True)
+                    for what, fn in (("dir", lambda: dir(new)), ("repr", lambda: repr(new)), ("str", lambda: str(new)), ("html", lambda: new._repr_html_()),
+                                     ("short_html", lambda: new._short_html_())):
+                        try:
+                            fn()
+                        except Exception as ex:  # noqa: BLE001
+                            chk.violation(f"{what}-raises:bare:{cls}:{type(ex).__name__}", f"{what}() of a freshly created {cls} (no attributes set yet, created through "
+                                          f"{type(o).__name__}.{name}.create({hint!r})) raised {ex!r}", {"model": spec0["name"], "owner": o.uuid, "relation": name, "hint": hint, "what": what})
+        del model
+    # ---------------- temporary_attribute itself against its model (Model/TempAttr.v): any attribute map, absent / empty / valued, nested
+    from capellambse.aird import _common as AC
+    tcases = []
+    S = lambda z: "" if z == 0 else f"v{z}"
+    for _ in range(300 if quick else 3000):
+        keys = rng.sample(range(1, 7), rng.randint(0, 5))
+        a = [[k_, rng.choice([0, 0, 1, 2, 3])] for k_ in keys]
+        k1, x1, k2, x2 = rng.randint(1, 7), rng.choice([0, 4, 5]), rng.randint(1, 7), rng.choice([0, 6])
+        if rng.random() < 0.5:
+            k2 = k1
+        el = etree.Element("e")
+        for k_, v_ in a:
+            el.set(f"k{k_}", S(v_))
+        dump = lambda: [[int(k_[1:]), 0 if v_ == "" else int(v_[1:])] for k_, v_ in el.attrib.items()]
+        try:
+            with AC.temporary_attribute(el, f"k{k1}", S(x1)):
+                inside = dump()
+                with AC.temporary_attribute(el, f"k{k2}", S(x2)):
+                    nested = dump()
+        except Exception as ex:  # noqa: BLE001
+            chk.violation(f"temporary_attribute-raises:{type(ex).__name__}", f"temporary_attribute on attributes {a} with ({k1},{x1}) / nested ({k2},{x2}) raised {ex!r}",
+                          {"attrs": a, "outer": [k1, x1], "inner": [k2, x2]})
+            continue
+        tcases.append(([a, k1, x1, k2, x2], [inside, nested, dump()]))
+        if dump() != a:
+            chk.violation("temporary_attribute-not-restored", f"temporary_attribute on attributes {a} with ({k1},{x1}) / nested ({k2},{x2}) leaves {dump()}", {"attrs": a, "outer": [k1, x1], "inner": [k2, x2]})
+    chk.correspond("From V Require Import Model.TempAttr.", "w_temp_attr", tcases, tag="C11_tempattr")
     chk.coverage.update({"counts": dict(sorted(stats.items())),
                          "explanation": "exhaustive enumeration on the implementation: every public attribute from dir() of every sampled (quick) / every (thorough) semantic object, "
                                         "repr/str/HTML of objects and of the lists their relations return, searches, validation, metrics, ReqIF export of every module, every diagram "
